@@ -89,7 +89,7 @@ class Kill(Command):
 
         watcher = self._get_watcher(arbiter, name)
         processes = watcher.get_active_processes()
-        if pid:
+        if pid is not None:
             processes = [p for p in processes if p.pid == pid]
 
         if processes:
